@@ -24,6 +24,31 @@ type thrScen struct {
 	Latency int `json:"latency"`
 	Buf     int `json:"buf"`
 	Conns   int `json:"conns"`
+	// Via "sub": the throttle is the first route of a subroute (matching timeout 300 ms) whose second route needs more
+	// data and then says no; the reader is the handler after the subroute
+	Via string `json:"via"`
+}
+
+// the throttle inside a subroute whose later route needs more data and then says no: the subroute's matching deadline
+// (300 ms) is armed again after the throttle's route matched and must be gone when the next handler reads
+func throttleViaSubroute(ctx caddy.Context, cfg map[string]any, next layer4.Handler) (layer4.Handler, error) {
+	th := map[string]any{"handler": "throttle"}
+	for k, v := range cfg {
+		th[k] = v
+	}
+	sub := map[string]any{"handler": "subroute", "matching_timeout": int64(300 * time.Millisecond), "routes": []map[string]any{
+		{"handle": []map[string]any{th}},
+		{"match": []map[string]any{{"verif_m0": map[string]any{"at": 600, "v": "N", "w": "N"}}}, "handle": []map[string]any{{"handler": "verif_h", "k": "term"}}},
+	}}
+	raw, _ := json.Marshal([]map[string]any{{"handle": []map[string]any{sub}}})
+	var rl layer4.RouteList
+	if err := json.Unmarshal(raw, &rl); err != nil {
+		return nil, err
+	}
+	if err := rl.Provision(ctx); err != nil {
+		return nil, err
+	}
+	return rl.Compile(zap.NewNop(), time.Hour, next), nil
 }
 
 func runThrottle(sc thrScen, idx int) (map[string]any, error) {
@@ -91,9 +116,11 @@ func runThrottle(sc thrScen, idx int) (map[string]any, error) {
 		go func() {
 			defer wg.Done()
 			shared.Add(vh.Ev{"e": "Start", "c": rec.ID})
-			h.Handle(cx, layer4.HandlerFunc(func(cx *layer4.Connection) error {
+			reader := layer4.HandlerFunc(func(cx *layer4.Connection) error {
 				buf := make([]byte, sc.Buf)
-				shared.Add(vh.Ev{"e": "RCall", "c": rec.ID})
+				if sc.Via != "sub" {
+					shared.Add(vh.Ev{"e": "RCall", "c": rec.ID})
+				}
 				for {
 					n, err := cx.Read(buf)
 					if n > 0 {
@@ -103,7 +130,18 @@ func runThrottle(sc thrScen, idx int) (map[string]any, error) {
 						return nil
 					}
 				}
-			}))
+			})
+			if sc.Via == "sub" {
+				// the first read is the subroute's matching read
+				shared.Add(vh.Ev{"e": "RCall", "c": rec.ID})
+				compiled, err := throttleViaSubroute(ctx, cfg, reader)
+				if err != nil {
+					panic(err)
+				}
+				compiled.Handle(cx)
+				return
+			}
+			h.Handle(cx, reader)
 		}()
 	}
 	wg.Wait()
